@@ -79,7 +79,7 @@ CHECKS = {
     'C14': dict(
         category='other', design_ref='DESIGN.md §5 C14',
         technique='who-calls rule over resolved call sites with key-provenance classification; shape rules for Map::get, index and `in` arms',
-        text='Decides the lookup-agreement clause: every lookup of a possibly numeric key on a CEL map goes through Map::get (the int/uint cross lookup), Map::get tries the exact key first and converts with try_from, list indexing uses get -> Null, `in` on lists is contains, map literals insert every evaluated entry. size/+ laws are delegated to std and not examined.',
+        text='Decides the lookup-agreement clause: every lookup of a possibly numeric key on a CEL map goes through Map::get (the int/uint cross lookup), Map::get tries the exact key first and converts with try_from, list indexing uses get -> Null, `in` on lists is contains, map literals insert every evaluated entry; list/string `+` appends rhs to a copy-on-write view of self in order and size() is len() of the own payload (additivity then follows from std contracts).',
         note='std HashMap/slice contracts trusted; string/bool keys have no numeric twin'),
     'C19': dict(
         category='other', design_ref='DESIGN.md §5 C19',
